@@ -31,5 +31,16 @@ SPEC = {
 }
 
 MUTATIONS = """
-(filled in after the dry-runs)
+Dry-runs on scratch copies of /repo; as for C23/C25 the steps of `./check C24 quick` were run one by one with private
+output directories (shared lake lock saturated), the two known classes loaded.
+ M2 changes.go: root package name not mapped (`pkgName == "?"`)       -> C24_facts_ok fails; 1607 disagreements; NEW classes
+      changes-consumer-missed (2284), changes-dependent-missed (429): files of the root package have no owner
+ M3 build_target.go HasSource ranges over AllSources() only            -> C24_facts_ok fails; 2531 disagreements; changes-consumer-missed (3069): data files
+ M4 build_target.go HasSource without the `s+"/"` prefix rule          -> C24_facts_ok fails; 3256 disagreements; changes-consumer-missed (4484): directory sources
+ M5 changes.go `if level > 0` (was != 0)                               -> C24_facts_ok fails; 1523 disagreements; changes-dependent-missed (2710): --level -1 stops following dependents
+ M8 changes.go RuleHash(..., runtime=false)                            -> C24_facts_ok fails; model unaffected (changed0 is an input); NEW class
+      changes-definition-change-missed (53): data / test-command edits are not detected
+ M1 changes.go `break` after the closest package removed               -> C24_facts_ok fails; 2 disagreements (a farther package also claims the file);
+      over-reporting is not a miss: exit 1 with proof-broken / correspondence-broken `no-failing-input-found`
+ H1 harmless: locals renamed in changes.go (filename->fn, pkgName->pn, labels->lbls) -> facts identical, 0 disagreements, only the two known classes
 """
